@@ -96,6 +96,12 @@ func c10readers() []readerKind {
 			r := bytes.NewReader(b)
 			return r, func() int { return len(b) - r.Len() }
 		}, clean},
+		{"bytes.Buffer-over-the-caller's-slice", func(b []byte, _ *rand.Rand) (io.Reader, func() int) {
+			// bytes.NewBuffer(b) reads straight out of b: a decoder that takes a zero-copy view (Next) and works in place
+			// would scribble on the caller's data
+			r := bytes.NewBuffer(b)
+			return r, func() int { return len(b) - r.Len() }
+		}, clean},
 		{"one-byte", func(b []byte, _ *rand.Rand) (io.Reader, func() int) {
 			r := bytes.NewReader(b)
 			return iotest.OneByteReader(r), func() int { return len(b) - r.Len() }
